@@ -4,6 +4,7 @@ import itertools
 import json
 from vt import core
 from vt.main import decide
+from translate import registry_tr
 
 NAMES = ["La", "LA", "la", "Lb", "lB", "EpL", "epl", "any"]
 PATTERNS = ["*.a", "*.b", "*.?", "x.a", None]
@@ -105,7 +106,7 @@ Definition show_res (r : result) : string := match r with
   | RUnit => "ok" | RErr => "err" | RLang d => "L" ++ show_nat (ltag d)
   | RLangs l => "Ls[" ++ sjoin "," (map (fun d => show_nat (ltag d)) l) ++ "]"
   | RGen d => "G" ++ show_nat (gtag d) | RGens l => "Gs[" ++ sjoin "," (map (fun d => show_nat (gtag d)) l) ++ "]"
-  | RMM m => show_mm m | RMMs l => "Ms[" ++ sjoin "," (map show_mm l) ++ "]" end.
+  | RMM m => show_mm m | RMMs l => "Ms[" ++ sjoin "," (map show_mm l) ++ "]" | RCrash => "EXC:TypeError" end.
 Definition go (ops : list op) : string := sjoin " " (map show_res (run fnm epl epg init ops)).
 """ % (fnm, core.coq_list([c_ld(d) for d in EP_LANGS]), core.coq_list([c_gd(d) for d in EP_GENS]))
 
@@ -207,7 +208,7 @@ def oracle(case):
 
 
 def run(chk):
-    chk.prove([])
+    chk.prove([registry_tr.translate])
     cases = []
     alpha = small_alphabet()
     depth = 3 if chk.thorough else 2
@@ -264,5 +265,6 @@ def run(chk):
     chk.cov["exhaustive"] = False
     chk.assumptions += ["fnmatch.fnmatch is an oracle (table computed by Python for the file/pattern universe)",
                         "importlib entry points are replaced by a fake entry-point set in the runner (registration.entry_points patched)",
-                        "the Registry model is hand-written and tied to registration.py by this correspondence only"]
+                        "the step function of the Registry model is instantiated with the facts tools/translate/registry_tr.py reads from textx/registration.py "
+                        "(Gen/SrcRegistry.v); the statements around them are compared as text; the correspondence validates the transcription"]
     decide(chk, failures, disagreements)
